@@ -730,6 +730,14 @@ def f_match_statement():
                                    _Rec(b'q', 0), _Rec(b'q', 4))]
 
 
+def f_iter_sentinel():
+    src = [1, 1, 1, 0, 1, 0]
+    pop = lambda: src.pop(0)
+    n = sum(1 for _ in iter(pop, 0))
+    rest = list(iter(pop, 0))
+    return n, rest, src
+
+
 def f_str_bits():
     s = bin(0b101101)[2:]
     return s, s.zfill(8), int(s[::-1], 2), s.count('1'), s.rfind('1'), s[:3] + '0' * 2, '{:08b}'.format(5), f'{5:08b}'[-3:], ''.join('1' if c == '0' else '0' for c in s)
